@@ -625,7 +625,15 @@ func (pe *PolicyEngine) HasPodPeers() bool {
 // returns error if there are two pods of same owner but different set of labels, since cannot map inconsistent pods to a workload
 func (pe *PolicyEngine) createPodOwnersMap() (map[string]Peer, error) {
 	res := make(map[string]Peer, 0)
-	for _, pod := range pe.podsMap {
+	// the pods are visited in the order of their names: which pod stands for its workload (pods of one owner may differ,
+	// e.g. in their named container ports) must not depend on the iteration order of the map
+	podsNames := make([]string, 0, len(pe.podsMap))
+	for podName := range pe.podsMap {
+		podsNames = append(podsNames, podName)
+	}
+	sort.Strings(podsNames)
+	for _, podName := range podsNames {
+		pod := pe.podsMap[podName]
 		if err := pe.checkConsistentLabelsForPodsOfSameOwner(pod); err != nil {
 			return nil, err
 		}
